@@ -9,6 +9,8 @@
 (*   serve(d) / unserve(d)   the namespace appears / disappears            *)
 (*   eval(d, paused)         the peer.eval hook of the peering in d        *)
 (*   rest(watching)          at rest: are the operator's streams open?     *)
+(*   kind(d, there)          another served kind (its CRD) appears / goes: *)
+(*                           the pause is about peerings, not about kinds  *)
 (***************************************************************************)
 EXTENDS Naturals, Sequences, FiniteSets, TLC, Json, IOUtils, TLCExt
 Traces == JsonDeserialize(IOEnv.TRACE_FILE)
@@ -26,6 +28,7 @@ Step ==
        [] E.ev = "unserve" -> dims' = dims \ {E.d} /\ flag' = [d \in DOMAIN flag \ {E.d} |-> flag[d]] /\ UNCHANGED verdict
        [] E.ev = "eval" -> /\ flag' = [d \in DOMAIN flag \cup {E.d} |-> IF d = E.d THEN E.paused ELSE flag[d]]
                            /\ UNCHANGED <<dims, verdict>>
+       [] E.ev = "kind" -> UNCHANGED <<dims, flag, verdict>>
        [] E.ev = "rest" -> /\ UNCHANGED <<dims, flag>>
                            /\ IF Paused /\ E.watching THEN Bad("streams_open_while_a_served_peering_has_a_conflict")
                               ELSE IF ~Paused /\ ~E.watching /\ dims # {} THEN Bad("paused_although_no_served_peering_has_a_conflict")
